@@ -106,7 +106,13 @@ class Env(object):
             env.sends += 1
             env.out.append(("send", node.id, message))
             if env.drop_after is not None and env.sends >= env.drop_after:
-                env.obj._SyncObj__connectedNodes.discard(node)
+                if node in env.obj._SyncObj__readonlyNodes:
+                    # the transport reports the lost connection of a read-only node from inside `send`:
+                    # the node's next / match index are removed
+                    if node in env.obj._SyncObj__connectedNodes:
+                        env.obj._SyncObj__onReadonlyNodeDisconnected(node)
+                else:
+                    env.obj._SyncObj__connectedNodes.discard(node)
             return True
 
         def add_node(node):
